@@ -202,6 +202,10 @@ class Runner():
                 msg = (f"ERROR: Task '{task.name}' saving success: "
                        f"Dependent file '{exception.filename}' does not exist.")
                 base_fail = DependencyError(msg)
+            except (TypeError, ValueError) as exception:
+                msg = (f"ERROR: Task '{task.name}' saving success: "
+                       f"values or result can not be saved: {exception}")
+                base_fail = DependencyError(msg)
             else:
                 node.run_status = "successful"
                 self.reporter.add_success(task)
